@@ -236,10 +236,16 @@ def drive(ctx):
     d.fresh()
     t_start = time.time()
 
+    steps = [0]
+
     def check_clock(p_date=0.3):
         d.time_get()
         if rng.random() < p_date:
             d.date_get()
+        steps[0] += 1
+        if steps[0] % 6000 == 0:        # a new Session now and then (also gives the trace a point where it can be split)
+            d.fresh()
+            d.time_get(); d.date_get()
 
     d.time_get(); d.date_get()
     # ---- valid times -----------------------------------------------------------------------------------------
@@ -275,8 +281,7 @@ def drive(ctx):
     for (y, m, dd) in days:
         d.date_set(fmt_date(rng, y, m, dd))
         d.date_get()
-        if rng.random() < 0.1:
-            d.time_get()
+        check_clock(0.0) if rng.random() < 0.1 else None
     ctx.cov['valid_dates'] = len(days)
     # ---- roll-over at midnight / month / year / the end of the range, and real elapsed time ------------------------
     for (dt, tm) in [(b'02-28-1999', b'23:59:59'), (b'02-28-2000', b'23:59:59'), (b'12-31-1999', b'23:59:59'),
@@ -379,8 +384,19 @@ def drive(ctx):
 
 def judge(ctx, events):
     keep = ('op', 's', 'r', 'k', 'code', 't0', 't1')
-    verdicts = ctx.validate('ClockEnv_Trace', [{k: e[k] for k in keep if k in e} for e in events])
-    ctx.cov['traces_validated_against_impl'] += 1
+    # one TLC run per chunk; a chunk starts at a `reset` event (clock knowledge restarts there anyway; ENVIRON$ of names set
+    # in an earlier chunk is then not judged until they are set again)
+    verdicts, start = [], 0
+    cuts = [i for i, e in enumerate(events) if e['op'] == 'reset']
+    bounds = []
+    for c in cuts:
+        if c - start >= 100000:
+            bounds.append((start, c)); start = c
+    bounds.append((start, len(events)))
+    for (a, b) in bounds:
+        vs = ctx.validate('ClockEnv_Trace', [{k: e[k] for k in keep if k in e} for e in events[a:b]])
+        verdicts += [(a + i, c) for (i, c) in vs]
+        ctx.cov['traces_validated_against_impl'] += 1
     seen_set = set()
     for e in events:
         if e['op'] == 'reset':
